@@ -321,7 +321,7 @@ func bCopy(intp *Interpreter) error {
 		if n < 0 {
 			return intp.e(eRangecheck, "copy: invalid count %d", n)
 		}
-		if len(intp.Stack) < int(n)+1 {
+		if int(n) > len(intp.Stack)-1 {
 			return intp.e(eStackunderflow, "copy: not enough arguments")
 		}
 		intp.Stack = intp.Stack[:len(intp.Stack)-1]
